@@ -1,5 +1,6 @@
 import Proofs.Producer
 import Proofs.CrashBatch
+import Proofs.CrashSigner
 
 /-!
 # C01 — the sequencer node only ever commits a valid, hash-linked, signed chain
@@ -8,6 +9,9 @@ Model: `Producer.publish` (`block/manager.go` `publishBlockInternal`), `Producer
 (`NewManager`), executable and compared with the real code on every run (streams C01/C04).
 All theorems quantify over **every** list of sequencing-layer responses (error, no batch, empty /
 non-empty batch, any transactions, any timestamps) and execution outcomes, every initial height ≥ 1.
+Assumptions: the execution layer is the stateless double `execRoot` / `ExecResp = ok | fail` (asked again for the
+same block it answers the same root); liveness (`C01_recovers`) has the hypotheses `signerAddr = proposerAddr`,
+`proposerAddr ≠ []`, `maxPending = 0`; safety holds for any signer (`C01_valid_chain_any_signer`).
 -/
 namespace Spec.C01
 open Wire Chain Producer
@@ -36,6 +40,36 @@ node commit a chain that is not valid. -/
 theorem C01_valid_chain (c : Cfg) (hpos : 1 ≤ c.initialHeight) (rs : List (SeqResp × ExecResp)) :
     ∃ n0 ws, start c {} = .ok (n0, ws) ∧ ValidChain c (run c n0 rs).store :=
   ⟨freshNode c, freshWrites c, start_empty c, validChain_of_inv (run_inv (freshNode_inv c hpos) rs)⟩
+
+/-! ### any signer
+
+The theorems of this file are about `publish`/`run`: the production step of a node that holds **the genesis proposer's
+key** (`c.key`; `signerAddr = proposerAddr`).  The compiled driver executes `publishB`/`runB`, which is `publish`
+exactly then (`C01_own_key`), and which models what the real node does with a foreign key. -/
+
+/-- with the genesis proposer's own key the driver's step is `publish`, its runs are `run` -/
+theorem C01_own_key {c : Cfg} (h : c.signerAddr = c.proposerAddr) (n : Node) (rs : List (SeqResp × ExecResp)) :
+    runB c n rs = run c n rs ∧ ∀ r e, publishB c n r e = publish c n r e :=
+  ⟨runB_eq h n rs, publishB_eq h n⟩
+
+/-- **Safety for any signer**: whatever key the node signs with, no response sequence makes it commit an invalid
+chain … -/
+theorem C01_valid_chain_any_signer (c : Cfg) (hpos : 1 ≤ c.initialHeight) (rs : List (SeqResp × ExecResp)) :
+    ∃ n0 ws, start c {} = .ok (n0, ws) ∧ ValidChain c (runB c n0 rs).store :=
+  ⟨freshNode c, freshWrites c, start_empty c, validChain_of_inv (runB_live (freshNode_live c hpos) rs).toInv⟩
+
+/-- … and **a node whose signer is not the genesis proposer never commits anything**: no step answers `ok`, the chain
+height stays below the initial height.  (Real code: `NewManager` accepts any signer; the genesis block it saves
+carries the foreign key under the proposer's address and fails `ValidateBasic` for ever; on an existing chain
+`execCreateBlock` refuses — stream C01, scenarios `sk=2`.) -/
+theorem C01_foreign_signer_commits_nothing (c : Cfg) (hpos : 1 ≤ c.initialHeight) (hf : c.signerAddr ≠ c.proposerAddr)
+    (rs : List (SeqResp × ExecResp)) (r : SeqResp) (e : ExecResp) :
+    (runB c (freshNode c) rs).store.height = c.initialHeight - 1 ∧
+    (publishB c (runB c (freshNode c) rs) r e).2.2 ≠ .ok := by
+  have hl := freshNode_live c hpos
+  refine ⟨?_, (publishB_foreign (runB_live hl rs) hf r e).1⟩
+  rw [(runB_foreign hl hf rs).1]
+  exact (freshDisk_facts c).1
 
 /-- the state a full node holds before it applies block `h` of a chain -/
 def stateBefore (c : Cfg) (s : Store) (h : Nat) : State :=
@@ -244,6 +278,15 @@ example : (run wCfg (freshNode wCfg) pRun).store.height = 2 ∧
     ((run wCfg (freshNode wCfg) pRun).store.getBlock 3).isSome = true ∧
     WellFormed (run wCfg (freshNode wCfg) pRun) wProbe ∧
     (run wCfg (freshNode wCfg) (pRun ++ [wProbe])).store.height = 3 := by decide +kernel
+
+/-- `C01_blocks_are_their_batches` at work: after `pRun` (third answer `[[9]]`@350, execution fails after the early
+save) and a probe (`[[3]]`@400, "using pending block"), block 3 holds the transactions and the time of the batch it
+was first built from — position 2 of the run — not those of the answer that was pending when it was committed -/
+example : ((run wCfg (freshNode wCfg) (pRun ++ [wProbe])).store.getBlock 3).map (fun b => (b.data.txs, b.sh.hdr.time))
+    = some ([[9]], 350) ∧ (pRun ++ [wProbe])[2]? = some (.batch [[9]] 350 [], .fail) := by
+  constructor
+  · decide +kernel
+  · rfl
 
 /-- non-vacuity: the hypotheses of the theorems above are met by a concrete reachable node that has
 committed two blocks -/
